@@ -61,8 +61,8 @@ type Inst struct {
 }
 
 type Options struct {
-	Props       map[string]bool // which properties' clauses are evaluated/reported
-	CrashPoints bool            // enumerate crash prefixes at Clean/Save (C12)
+	Props       map[string]bool       // which properties' clauses are evaluated/reported
+	CrashPoints bool                  // enumerate crash prefixes at Clean/Save (C12)
 	HeightSel   func(h, tip int) bool // nil = every height
 }
 
@@ -80,10 +80,10 @@ type Engine struct {
 }
 
 type CrashStats struct {
-	Images    int
-	Ops       int
-	ByKind    map[string]int
-	LoadErrs  int
+	Images   int
+	Ops      int
+	ByKind   map[string]int
+	LoadErrs int
 }
 
 func HdrHex(h *wire.BlockHeader) string {
@@ -279,9 +279,16 @@ func (e *Engine) compareTwins(hd *wire.BlockHeader, classes []string) {
 		return
 	}
 	a, b := e.Insts[0], e.Insts[1]
-	if a.Tainted || b.Tainted {
+	if a.Tainted || b.Tainted || a.M.TwinDiverged {
 		return
 	}
+	// once the twins legitimately answered differently (a header one of them was allowed not to
+	// restore) their accepted sets differ and nothing further is comparable
+	defer func() {
+		if classes[0] != classes[1] {
+			a.M.TwinDiverged = true
+		}
+	}()
 	// only submissions attaching within the fork-depth limit to a parent both certainly hold
 	pa, pb := a.M.Nodes[hd.PrevBlock], b.M.Nodes[hd.PrevBlock]
 	if pa == nil || pb == nil {
@@ -756,7 +763,7 @@ func (e *Engine) checkLocators(in *Inst, s *Snap, after string) {
 	for _, n := range Chain(tip) {
 		onBest[n.Hash] = n.Height
 	}
-	anyPruned := len(m.MaybePruned) > 0
+	anyPruned := len(m.MaybePruned) > 0 || m.HookPruned
 	for _, mx := range locatorMaxes {
 		if s.LocErr[mx] != "" {
 			e.fail("C19", "locator-returned", "locator-error/"+s.LocErr[mx], "")
